@@ -51,6 +51,7 @@ def plan(tier, seed):
         jobs.append({"name": "deep%02d" % i, "spec": {"kind": "deep", "n": 60 if q else 8000, "i": i}})
     for i in range(4 if q else NSH):
         jobs.append({"name": "rand%02d" % i, "spec": {"kind": "random", "n": 2500 if q else 250000}})
+    jobs.append({"name": "firstop_foreign_curve", "spec": {"kind": "firstop"}})
     for i, shape in enumerate(GROWTH_SHAPES):
         jobs.append({"name": "growth_" + shape, "spec": {"kind": "growth", "shape": shape, "scale": 1 if q else 3}})
     return jobs
@@ -60,7 +61,7 @@ def mandatory_bins(tier):
     b = ["entry:bf3_stream", "entry:bf3_path", "entry:bf3_nomac", "entry:bec2_none", "entry:bec2_public_only_ecc", "entry:bec2_matching", "entry:bec2_wrong_private", "entry:bec2_wrong_aes_key",
          "entry:bec2_wrong_code", "entry:bec2_all", "entry:bf2_enforce", "entry:bf2_no_enforce", "entry:bf2_path", "entry:bec2_path_nomac", "entry:configid", "entry:pfid2", "all_prefixes", "all_single_char_mutations",
          "line_swap", "line_duplicate", "token_insert", "multi_mutation", "random_text", "random_hex", "global_state_compared", "reference_inputs_rechecked", "returned_normally", "raised_format_error", "raised_value_error"]
-    b += ["deep:" + d for d in DEEP] + ["growth:" + g for g in GROWTH_SHAPES]
+    b += ["deep:" + d for d in DEEP] + ["growth:" + g for g in GROWTH_SHAPES] + ["first_key_agreement_of_the_process_uses_a_key_of_another_curve"]
     return b
 
 
@@ -131,6 +132,10 @@ class Monitor:
         t3 = L.text_of([("a", "b")], L.serialise_bf3(comps, key))
         ck = bytes(16)
         t2 = L.text_of([], L.serialise_bec2(comps, key, [(1, container.wrap(ck, bytes(10) + key))]))
+        # a file whose only block is an ECC block (model-built for recipient scalar 77, ephemeral scalar 5): state that only the
+        # ECC / key-agreement path keeps shows up here
+        t4 = L.text_of([], L.serialise_bec2(comps, key, [(3, ecies.make_block(1, 5, ecies.pub_of(77), key))]))
+        self._t4 = t4
         tb = ("##Firmware: 1100 ID-engine 1.02.03\n##Creator: ref\n##Bf3Update: 1\n#>CHECK_FWVER VERSIONDESC=*\n#>SELECT FILTER=01 01 00 9B\n#>SELECT_IF PROTOCOL=BRP\n:0000FE00\n"
               + R2.data_line(1, 0x35, 0, b"abc")[0] + "\n:0002FF00\n#>CHECK_FWVER VERSIONDESC=*\n#>SELECT FILTER=01 02 80 0B 00 0C\n#>SELECT_IF PROTOCOL=BRP-SER\n:0003FE00\n" + R2.data_line(4, 0x84, 0, b"main")[0] + "\n:0005FF00\n")
         out = []
@@ -155,7 +160,8 @@ class Monitor:
             return r
 
         for fn in (lambda: spoil(BF.Bf3File.read_file(io.StringIO(t3), True, key)), lambda: spoil(B.Bec2File.read_file(io.StringIO(t2), [B.SoftwareCustKeyEncryptor(ck)])),
-                   lambda: spoil(BF.Bf3File.bf2_import(io.StringIO(tb))), lambda: spoil(ns.configid.ConfigId.create_from_str("12345-0001-0002-03 n")), lambda: BF.pfid2_filter_to_str(b"\x01\x02\x80\x0b\x40\x0c")):
+                   lambda: spoil(BF.Bf3File.bf2_import(io.StringIO(tb))), lambda: spoil(ns.configid.ConfigId.create_from_str("12345-0001-0002-03 n")), lambda: BF.pfid2_filter_to_str(b"\x01\x02\x80\x0b\x40\x0c"),
+                   lambda: spoil(B.Bec2File.read_file(io.StringIO(t4), [B.EccDecryptor(1, GB.private_key_obj(ns, 77))]))):
             try:
                 out.append(fn())
             except Exception as e:
@@ -180,7 +186,7 @@ class Monitor:
         self.ctx.bin("reference_inputs_rechecked")
         if ref != self.ref0:
             which = [i for i, (a, b) in enumerate(zip(ref, self.ref0)) if a != b]
-            self.ctx.violation("result_for_fixed_input_depends_on_earlier_parses:" + ["bf3", "bec2", "bf2", "configid", "pfid2", "failing_reference_inputs"][which[0]], {"now": ref[which[0]][:300], "first": self.ref0[which[0]][:300]}, rp)
+            self.ctx.violation("result_for_fixed_input_depends_on_earlier_parses:" + ["bf3", "bec2", "bf2", "configid", "pfid2", "bec2_ecc", "failing_reference_inputs"][which[0]], {"now": ref[which[0]][:300], "first": self.ref0[which[0]][:300]}, rp)
             self.ref0 = ref
         now = global_state(self.ns)
         self.ctx.bin("global_state_compared")
@@ -623,6 +629,46 @@ def run_growth(ns, ctx, spec):
         budget.close()
 
 
+def run_firstop(ns, ctx, spec):
+    """the FIRST key agreement of the process is a failing one: a BEC2 file read with a decryptor whose private key lies on
+    another curve (P-384) or is for another selector; afterwards valid files must read as in any other process"""
+    BF, B = ns.bf3file, ns.bec2file
+    key = bytes(range(16))
+    comps = [MComp([(0xC3, b"\x02")], b"reference payload", None, False)]
+    t4 = L.text_of([], L.serialise_bec2(comps, key, [(3, ecies.make_block(1, 5, ecies.pub_of(77), key))]))
+    mon = None
+    K = ns.keys
+    foreign = ns.plugin.PrivateEccKeyProxy.create_from_der_fmt(K.SigningKey.from_secret_exponent(12345, curve=ns.curves.NIST384p).to_der())
+    ctx.ev()
+    ctx.bin("first_key_agreement_of_the_process_uses_a_key_of_another_curve")
+    ctx.bin("entry:bec2_wrong_private")
+    try:
+        B.Bec2File.read_file(io.StringIO(t4), [B.EccDecryptor(1, foreign)])
+        ctx.bin("returned_normally")
+    except (ns.error.FormatError, ValueError) as e:
+        ctx.exc(e)
+        ctx.bin("raised_value_error")
+    except Exception as e:
+        f, fu = raising_site(e)
+        ctx.violation("unrelated_exception:bec2:%s:%s:%s" % (type(e).__name__, f, fu), {"entry": "bec2_wrong_private", "decryptor": "private key on NIST384p"}, {"kind": "firstop"})
+    # now the ordinary monitor (its constructor takes the reference digests: the valid ECC file must read)
+    mon = Monitor(ns, ctx)
+    try:
+        ctx.ev()
+        try:
+            r = B.Bec2File.read_file(io.StringIO(t4), [B.EccDecryptor(1, GB.private_key_obj(ns, 77))])
+            ok = bytes(r.session_key) == key
+        except Exception as e:
+            ok = False
+            ctx.exc(e)
+        if not ok:
+            ctx.violation("result_for_fixed_input_depends_on_earlier_parses:bec2_ecc", {"after": "a failed read with a decryptor key on another curve as first key agreement of the process"}, {"kind": "firstop"})
+        mon.check_globals({"kind": "firstop"})
+        ctx.sample({"kind": "firstop", "valid_ecc_file_read_after_failed_first_agreement": ok})
+    finally:
+        mon.close()
+
+
 def run_random(ns, ctx, spec):
     BF, B = ns.bf3file, ns.bec2file
     rng = ctx.rng
@@ -682,6 +728,8 @@ def run_shard(spec, ctx):
         run_deep(ns, ctx, spec)
     elif k == "growth":
         run_growth(ns, ctx, spec)
+    elif k == "firstop":
+        run_firstop(ns, ctx, spec)
     else:
         run_random(ns, ctx, spec)
 
@@ -689,7 +737,9 @@ def run_shard(spec, ctx):
 def replay(rec, ctx):
     ns = load()
     k = rec.get("kind")
-    if k == "growth":
+    if k == "firstop":
+        run_firstop(ns, ctx, {})
+    elif k == "growth":
         run_growth(ns, ctx, {"shape": rec["shape"], "scale": 1})
     elif k == "deep":
         run_deep(ns, ctx, {"n": len(DEEP), "i": 0})
